@@ -69,7 +69,12 @@ def _check_balances(res, cs, chain, bid, what):
         w = want.setdefault(pub, [0, set()])
         w[0] += value
         w[1].add(ref)
-    got = cs.public_key_balances_by_hash[bid]
+    try:
+        got = cs.public_key_balances_by_hash[bid]
+    except Exception as e:
+        res.violate(PROP, 'C03/balance-read-raised', '%s: reading the per-key balances at stored block %s raised %s' % (
+            what, bid.hex()[:12], type(e).__name__))
+        return False
     seen = set()
     for pk, bal in got.items():
         pub = pk.public_key
@@ -82,7 +87,7 @@ def _check_balances(res, cs, chain, bid, what):
                             what, pub.hex()[:8], bid.hex()[:12], bal.value, len(refs), w[0], len(w[1])))
             return False
     for pub, w in want.items():
-        if pub not in seen and w[0] != 0:
+        if pub not in seen and w[1]:        # (also a key whose only unspent outputs are worth nothing is listed with them)
             res.violate(PROP, 'C03/balance-differs-from-unspent-outputs',
                         '%s: key %s has unspent outputs but no balance entry at %s' % (what, pub.hex()[:8], bid.hex()[:12]))
             return False
@@ -197,7 +202,11 @@ def execute(script):
                     break
                 if not _check_balances(res, target_cs, chain, rid, 'receiver %d read' % rn):
                     break
-                gb = wallet.get_balance(target_cs)
+                try:
+                    gb = wallet.get_balance(target_cs)
+                except Exception as e:
+                    res.violate(PROP, 'C03/balance-read-raised', 'receiver %d: the wallet balance at the head raised %s' % (rn, type(e).__name__))
+                    break
                 hb = chain.blocks[target_cs.current_chain_hash]
                 want = sum(v for (v, pub) in hb.utxo.values() if pub in wpubs)
                 if gb != want:
